@@ -122,6 +122,7 @@ func kinds() []*kind {
 func run(c *vf.Ctx) {
 	c.Rule("kinds {blake2b-512,-256,-8, blake2s-256, legacy Keccak-256, -512}. " +
 		"(T) every history over {Write 1,B-1,B,B+1,600; Sum; Reset; M=marshal->unmarshal into fresh->continue on the restored hash} (+Read 1,rate,rate+1 for Keccak) to depth D, no state merging, every object finally extended by one Write+Sum; " +
+		"Value classes of the written data {seeded, all-0x00, all-0xFF, one set bit per 97 bytes, ascending}: (T) is explored once per class (seeded to depth D, the structured classes to D-1), and (V) every length 0..2B+1 and 600 x every class (Keccak also after a short Read) is marshaled and restored into a fresh and two used receivers, all continued and compared with the reference; " +
 		"(H) crafted well-formed BLAKE2 states with high counter words x buffer fill {0,1,B-1,B} x continuation {0,1,B,B+1,3B+1}; " +
 		"(F) single faults of valid marshaled states (all 256 values of each structural byte, counter boundary values, all other values of each magic byte, 4 faults at every byte position, every truncation, extensions, size x offset corner pairs), all strings of length <= 2, seeded random strings, each accepted state driven through 5 operation orders. " +
 		"(L) long histories: state marshaled after one Write of 2^k+{-1,0,1,B-1,B,B+1} bytes, k=8..22 (Keccak also after squeezing that many bytes), restored into a fresh and into two used receivers, all continued with the same Write(B+3)+Sum / Read(2B+5) and compared with the original (and with the reference up to 2^16+B+1). " +
@@ -138,6 +139,7 @@ func run(c *vf.Ctx) {
 			highCounters(c, k)
 		}
 		faults(c, k)
+		valueGrid(c, k)
 		longStates(c, k)
 		snapshots(c, k)
 	}
@@ -240,6 +242,34 @@ type obj struct {
 	squeezing bool
 	outpos    int
 	reused    bool // restored into a receiver that had been used before
+}
+
+// valueClasses: the DATA written in the histories is a dimension of its own - a state
+// field may depend on the values absorbed (a sponge that is still all zero, a buffer of
+// 0xFF, a single set bit), not only on how many bytes were absorbed.
+var valueClassNames = []string{"seeded", "all-0x00", "all-0xFF", "one-bit", "ascending"}
+
+func valueClass(c *vf.Ctx, label string, class, n int) []byte {
+	b := make([]byte, n)
+	switch class {
+	case 0:
+		return c.Bytes(label, 0, n)
+	case 1:
+	case 2:
+		for i := range b {
+			b[i] = 0xFF
+		}
+	case 3:
+		// zeros with one set bit every 97 bytes (and in the very first byte)
+		for i := 0; i < n; i += 97 {
+			b[i] = 0x80 >> uint(i/97%8)
+		}
+	case 4:
+		for i := range b {
+			b[i] = byte(i)
+		}
+	}
+	return b
 }
 
 func clobber(b []byte) {
@@ -352,6 +382,14 @@ func (k *kind) check(o *obj, data []byte) string {
 }
 
 func transparency(c *vf.Ctx, k *kind) {
+	for class := range valueClassNames {
+		transparencyClass(c, k, class)
+	}
+}
+
+// transparencyClass explores the histories with the written data taken from one value
+// class: the seeded class to the full depth, the structured classes to depth-1.
+func transparencyClass(c *vf.Ctx, k *kind, class int) {
 	B := k.B
 	ops := []op{{'W', 1}, {'M', 0}, {'S', 0}, {'W', B}, {'Z', 0}, {'W', B - 1}, {'W', B + 1}, {'W', 600}}
 	if k.keccak {
@@ -364,11 +402,19 @@ func transparency(c *vf.Ctx, k *kind) {
 	if k.label == "blake2b-512" || k.label == "blake2s-256" {
 		depth++
 	}
-	stream := c.Bytes("T-"+k.label, 0, depth*600+8)
-	vf.ExploreSeq(c, "T/"+k.label, vf.SeqSpec[op]{
+	label := "T/" + k.label
+	if class > 0 {
+		depth--
+		label += "/" + valueClassNames[class]
+	}
+	stream := valueClass(c, "T-"+k.label, class, depth*600+8)
+	vf.ExploreSeq(c, label, vf.SeqSpec[op]{
 		Ops: ops, Depth: depth, Parallel: true, Name: opName,
 		Class: func(h []op, mis string) string {
 			cat, _, _ := strings.Cut(mis, " | ")
+			if class > 0 {
+				return k.name + ": transparency (" + valueClassNames[class] + " data): " + cat
+			}
 			return k.name + ": transparency: " + cat
 		},
 		Run: func(hist []op) (key string, stop bool, mis string) {
@@ -469,11 +515,107 @@ func transparency(c *vf.Ctx, k *kind) {
 					}
 				}
 			}
-			if len(hist) == depth {
+			if len(hist) == depth && class == 0 {
 				c.Outcome(fmt.Sprintf("T history end: round-trips=%d squeezing=%v", trips, cur.squeezing))
 			}
 			return "", false, ""
 		},
+	})
+}
+
+// ------------------------------------------------------------------ V (every length x value class)
+
+// valueGrid: for every value class and EVERY length 0..2B+1 (and 600): Write(L) in one
+// call or split in two, marshal, restore into a fresh and two used receivers, then all
+// four objects take Write(7)+Sum (Keccak additionally: Read(L%5+1) before the marshal in
+// a second pass, continued by Read) and must equal the reference.
+func valueGrid(c *vf.Ctx, k *kind) {
+	B := k.B
+	var lens []int
+	for L := 0; L <= 2*B+1; L++ {
+		lens = append(lens, L)
+	}
+	lens = append(lens, 600)
+	modes := 1
+	if k.keccak {
+		modes = 2
+	}
+	n := len(valueClassNames) * len(lens) * modes
+	pfor(c, k.name+" section V", n, func(i int) {
+		class := i / (len(lens) * modes)
+		L := lens[i/modes%len(lens)]
+		squeeze := i%modes == 1
+		data := valueClass(c, "V-"+k.label, class, L+7)
+		msg, extra := data[:L], data[L:]
+		bad := func(what string, d map[string]any) {
+			if d == nil {
+				d = map[string]any{}
+			}
+			d["kind"], d["length"], d["value_class"], d["squeezed_before_marshal"] = k.label, L, valueClassNames[class], squeeze
+			c.Violation(k.name+": transparency ("+valueClassNames[class]+" data, length grid): "+what, d)
+		}
+		orig := k.fresh()
+		orig.Write(append([]byte(nil), msg[:L/2]...))
+		orig.Write(append([]byte(nil), msg[L/2:]...))
+		pre := 0
+		if squeeze {
+			pre = L%5 + 1
+			buf := make([]byte, pre)
+			orig.(io.Reader).Read(buf)
+			if !bytes.Equal(buf, k.stream(msg, pre)) {
+				bad("Read output differs from the Keccak sponge stream", nil)
+				return
+			}
+		}
+		c.Eval(1)
+		objs := []hash.Hash{orig}
+		for r := 0; r < 3; r++ {
+			var recv hash.Hash
+			if r > 0 {
+				recv = k.used(r - 1)
+			}
+			f, blob, m := roundTripInto(k, orig, recv)
+			if m != "" {
+				who := ""
+				if r > 0 {
+					who = "receiver that had been used before: "
+				}
+				bad(who+cutBar(m), map[string]any{"mismatch": m, "state": fmt.Sprintf("%x", blob)})
+				return
+			}
+			objs = append(objs, f)
+		}
+		var want []byte
+		if squeeze {
+			want = k.stream(msg, pre+B+3)[pre:]
+		} else {
+			want = k.digest(append(append([]byte{}, msg...), extra...))
+		}
+		for oi, h := range objs {
+			var got []byte
+			if p, v, _ := vf.Protect(func() {
+				if squeeze {
+					got = make([]byte, B+3)
+					h.(io.Reader).Read(got)
+				} else {
+					h.Write(extra)
+					got = h.Sum(nil)
+				}
+			}); p {
+				bad("continuing a restored hash panics", map[string]any{"object": oi, "panic": fmt.Sprint(v)})
+				return
+			}
+			if !bytes.Equal(got, want) {
+				bad([]string{"original", "restored hash", "hash restored into a receiver that had been used before", "hash restored into a receiver that had been used before"}[oi]+" continues differently from the reference", map[string]any{"got": fmt.Sprintf("%x", got), "want": fmt.Sprintf("%x", want)})
+				return
+			}
+		}
+		if class > 0 && L > 0 {
+			c.Nontrivial(fmt.Sprintf("V/%s/%d/%d/%v", k.label, class, L, squeeze))
+		}
+		if class == 1 && L == B-1 && !squeeze {
+			c.Sample(map[string]any{"section": "V", "kind": k.label, "value_class": valueClassNames[class], "length": L})
+		}
 	})
 }
 
